@@ -58,11 +58,15 @@ def _over_symbolic_set(ex, e, g, st, it):
         x = fresh('x', IntSort())
         base = st.copy(); base.env[g.target.id] = ZV('ref', x)
         cond, pure = BoolVal(True), True
+        npc = len(base.pc)
         for test in g.ifs:
-            res = ex.ev(test, base)
-            if len(res) != 1 or isinstance(res[0][1], Raise) or len(res[0][0].pc) != len(base.pc) or not res[0][0].tn.eq(base.tn):
-                pure = False; break
-            cond = And(cond, truth(res[0][1], res[0][0]))
+            alts = []
+            for s2, v in ex.ev(test, base):       # `and`/`or` fork: the filter is the disjunction of its true outcomes
+                if isinstance(v, Raise) or not s2.tn.eq(base.tn) or any(not s2.heap[k].eq(base.heap[k]) for k in s2.heap if k in base.heap):
+                    pure = False; break
+                alts.append(And(*s2.pc[npc:], truth(v, s2)))
+            if not pure: break
+            cond = And(cond, Or(*alts) if alts else BoolVal(False))
         if pure:
             return [(st, PSet(z3.Lambda([x], And(it.arr[x], cond)), 'ref'))]
     if not isinstance(e, (ast.ListComp, ast.SetComp)): raise Unsupported(f'comprehension over a set (line {e.lineno})')
